@@ -26,10 +26,11 @@ ASSUMPTIONS = [
 ]
 PROBES = ["append_present_moves_to_end", "invalid_member_rejects_list", "class_inside_not_in_later_compound", "attached", "detached", "restart", "spelling_variants_agree", "functional_pseudo_in_not", "invalid_text_on_member"]
 
-TYPES = ["a", "b", "div", "p", "span", "h1", "li"]
-IDS = ["i", "id1", "x"]
-CLASSES = ["c", "foo", "k", "a-b", "x1"]
-ATTRS = ["t", "href", "lang", "data-x"]
+# (names with escapes for characters that are no name characters: delimiters of the selector syntax itself)
+TYPES = ["a", "b", "div", "p", "span", "h1", "li", "a\\7b ", "x\\20 y", "d\\3e e", "s\\2c t", "u\\7c v"]
+IDS = ["i", "id1", "x", "i\\23 j", "k\\a "]
+CLASSES = ["c", "foo", "k", "a-b", "x1", "c\\2e d", "\\31 0", "m\\ "]
+ATTRS = ["t", "href", "lang", "data-x", "t\\3d u", "\\31 x"]
 ATTR_OPS = ["", "=v", '="v w"', "~=v", "|=en", "^=v", "$=v", "*=v", "='q'",
             # strings whose content looks like selector syntax: counted as nothing
             '="["', '="]"', '="#a"', '=".b"', '=":not(x)"', '="a > b"', "='*'", '="[x=y]"', '~="#i.c"', '="::after"', '=","']
